@@ -54,11 +54,24 @@ def valKind : Val → Kind
 inductive PyVal where
   | sc (v : Val)
   | arr (shape : List Nat) (flat : List Val)
+  /-- Python `None`: not one of the five kinds; next to list values `construct_var_len_props`
+  (and, since repair C03-06, `dict_props_to_arr`) treats it as a missing value -/
+  | none
 deriving DecidableEq, Repr, Inhabited
 
-def PyVal.kind : PyVal → Kind
-  | .sc v => valKind v
-  | .arr _ _ => .array
+/-- kind of a value (`none` for Python `None`, which has none of the five) -/
+def PyVal.kind : PyVal → Option Kind
+  | .sc v => some (valKind v)
+  | .arr _ _ => some .array
+  | .none => Option.none
+
+def PyVal.isNone : PyVal → Bool
+  | .none => true
+  | _ => false
+
+def PyVal.isArr : PyVal → Bool
+  | .arr _ _ => true
+  | _ => false
 
 /-- a Python `dict[str, Any]`: insertion ordered, keys unique -/
 abbrev Attrs := List (String × PyVal)
@@ -152,17 +165,22 @@ def rowToPy (varlen : Bool) : Row → PyVal
   | ([], [v]) => if varlen then .arr [] [v] else .sc v
   | (sh, fl) => .arr sh fl
 
+/-- shape tag numpy's homogeneity test compares: `none` = scalar, `some sh` = list / array of shape
+`sh`; `some []` stands for "not a list": a 0-d array or Python `None` (excluded by the domains) -/
 def pyShape : PyVal → Option (List Nat)
-  | .sc _ => none
+  | .sc _ => Option.none
   | .arr sh _ => some sh
+  | .none => some []
 
 def pyLeaves : PyVal → List Val
   | .sc v => [v]
   | .arr _ fl => fl
+  | .none => []
 
 def pyRow : PyVal → Row
   | .sc v => ([], [v])
   | .arr sh fl => (sh, fl)
+  | .none => ([], [])
 
 def castRow (d : Dtype) (r : Row) : Except Err Row :=
   match mapE (castTo d) r.2 with
@@ -216,6 +234,19 @@ def constructVarLenProps (vals : List PyVal) : Except Err (Dtype × List Row) :=
       | .error e => .error e
       | .ok rows => .ok (d, rows)
 
+/-- `construct_var_len_props(values)` for a list with `None` entries: `None` is ignored for the
+common dtype / rank, stored as an empty array `np.empty((0,)*ndim, dtype)` and flagged in the
+returned `missing` mask (`None` when no entry is `None`) -/
+def varLenWithNone (vals : List PyVal) : Except Err (Dtype × List Row × Option (List Bool)) :=
+  match commonTypeDims (vals.filter (fun x => !x.isNone)) with
+  | .error e => .error e
+  | .ok (d, _, nd) =>
+    if d = .u64 then .error (.unmodelled "uint64 flavour of a variable-length array")
+    else
+      match mapE (fun x => if x.isNone then .ok ((List.replicate nd 0, []) : Row) else varLenRow d nd x) vals with
+      | .error e => .error e
+      | .ok rows => .ok (d, rows, if vals.any PyVal.isNone then some (vals.map PyVal.isNone) else Option.none)
+
 /-- `np.asarray(values)` + `_exact_int_array` for values of one shape: one regular array -/
 def regularArr (vals : List PyVal) : Except Err (Dtype × Bool × List Row) :=
   match exactIntDtype (vals.flatMap pyLeaves) (joinAll ((vals.flatMap pyLeaves).map discover)) with
@@ -257,12 +288,31 @@ def filledValues {ι : Type} (data : List (ι × Attrs)) (name : String) : List 
 def missingMask {ι : Type} (data : List (ι × Attrs)) (name : String) : List Bool :=
   data.map fun d => (d.2.lookup name).isNone
 
+/-- `[m or n for m, n in zip(missing, none_mask)]` -/
+def orMasks : List Bool → List Bool → List Bool
+  | a :: as, b :: bs => (a || b) :: orMasks as bs
+  | _, _ => []
+
+/-- one property of `dict_props_to_arr`.  With a `None` among the (filled) values: next to at least
+one list numpy raises its "inhomogeneous" `ValueError` and the variable-length fallback treats the
+`None`s as missing values, whose mask is OR-ed into the mask of the absent elements (repair
+C03-06); without any list the result is an object array of Python objects that cannot be written
+(outside the model). -/
 def dictPropToArr {ι : Type} (data : List (ι × Attrs)) (name : String) : Except Err Col :=
-  match valuesToArr (filledValues data name) with
-  | .error e => .error e
-  | .ok (d, vl, rows) =>
-    .ok { dtype := d, varlen := vl, rows := rows,
-          missing := if (missingMask data name).any id then some (missingMask data name) else none }
+  if (filledValues data name).any PyVal.isNone then
+    if (filledValues data name).any PyVal.isArr then
+      match varLenWithNone (filledValues data name) with
+      | .error e => .error e
+      | .ok (d, rows, _) =>
+        .ok { dtype := d, varlen := true, rows := rows,
+              missing := some (orMasks (missingMask data name) ((filledValues data name).map PyVal.isNone)) }
+    else .error (.unmodelled "object array holding None")
+  else
+    match valuesToArr (filledValues data name) with
+    | .error e => .error e
+    | .ok (d, vl, rows) =>
+      .ok { dtype := d, varlen := vl, rows := rows,
+            missing := if (missingMask data name).any id then some (missingMask data name) else none }
 
 def namedCol {ι : Type} (data : List (ι × Attrs)) (n : String) : Except Err (String × Col) :=
   match dictPropToArr data n with
